@@ -67,14 +67,15 @@ Definition spec_hist (U : list gen) (T : list entry) (h : hobs) : bool :=
   match accepted U h (h_calls h) (h_obs h) with
   | None => false
   | Some accs =>
+      let runs_h := h_runs h in
       (* equal parameters -> the identical module; modules coincide exactly when the creating calls do *)
       all_pairs (fun a b => implb (key_eqb (a_key a) (a_key b)) (Nat.eqb (a_mid a) (a_mid b))) accs &&
       all_pairs (fun a b => match origin_c U T (a_key a), origin_c U T (a_key b) with
                             | Some x, Some y => Bool.eqb (key_eqb x y) (Nat.eqb (a_mid a) (a_mid b))
                             | _, _ => true end) accs &&
       (* the body ran once per parameter value, and did run for every accepted call *)
-      all_pairs (fun a b => negb (key_eqb a b)) (h_runs h) &&
-      forallb (fun a => existsb (key_eqb (a_key a)) (h_runs h)) accs &&
+      all_pairs (fun a b => negb (key_eqb a b)) runs_h &&
+      forallb (fun a => existsb (key_eqb (a_key a)) runs_h) accs &&
       (* one module <-> one name, at return, at the end, and in the exported package *)
       forallb (fun a => String.eqb (a_ret a) (a_fin a)) accs &&
       all_pairs (fun a b => Bool.eqb (Nat.eqb (a_mid a) (a_mid b)) (String.eqb (a_fin a) (a_fin b))) accs &&
